@@ -150,3 +150,53 @@ def C19(ctx):
 
 
 PROPS.update({"C18": C18, "C19": C19})
+
+
+def C07(ctx):
+    t = "quick" if ctx.quick else "thorough"
+    ctx.rule = ("entry machine: all set_/push_ histories of depth <= 3/4 over a reduced table (model checking); simulated "
+                "histories of 40 calls over the full 23-variable table replayed on three fresh Summary values each "
+                "(all getters + printed text + is_completed after every call, parse-back at the end); random entries built "
+                "by random call orders with overwritten noise values, validated call by call through the entry machine; "
+                "non-trivial = history ending in a complete entry")
+    ctx.assumptions = ["values contain no CR/LF; list variables are set to non-empty lists (empty lists only in C17)"]
+    ctx.mc("MC_Summary", "MC_Summary.%s.cfg" % t)
+    ctx.emit_replay("MC_Summary", "MC_Summary.sim.cfg", "hist-sim", workers=1,
+                    simulate="num=%d" % q(ctx, 500, 5000), seed=ctx.seed, coverage=False)
+    ctx.record_validate("sumhist", q(ctx, 1500, 20000), "Tr_Summary", "Tr_Summary.cfg")
+
+
+def C08(ctx):
+    t = "quick" if ctx.quick else "thorough"
+    ctx.rule = ("texts = a canonical 23-variable entry with every single edit (quick) / every pair of edits (thorough): each "
+                "line removed, each name misspelt 6 ways, each integer replaced by 9 non-integers and 5 unusual integers, a "
+                "line without '=' or an empty line at every position, every variable repeated; verdict and reported cause "
+                "compared with the real parser; random texts (shuffled, repeated, 0-2 faults, CRLF) validated by TLC; "
+                "non-trivial = accepted text")
+    ctx.assumptions = ["when a text has several faults the property does not fix which is reported: any cause present is accepted"]
+    ctx.emit_replay("MC_SummaryParse", "MC_SummaryParse.%s.cfg" % t, "parse-faults", timeout=3000)
+    ctx.exhaustive = True
+    ctx.record_validate("sumparse", q(ctx, 8000, 100000), "Tr_Summary", "Tr_Summary.cfg")
+
+
+def C09(ctx):
+    t = "quick" if ctx.quick else "thorough"
+    ctx.rule = ("model checking: every stream of <= 3/4 records over an abstract byte alphabet and EVERY partition into "
+                "writes, implemented algorithm refines the property; simulated (stream, partition) behaviours mapped to "
+                "real pkg_summary bytes, run on the real SummaryStream and validated write by write; real streams (1-3 "
+                "random entries, ASCII and 2/3/4-byte characters, one malformed entry of 6 kinds at every position): one "
+                "call, byte-at-a-time, fixed chunk sizes, every single cut, pairs of cuts, random partitions; "
+                "non-trivial = history that collects at least one entry")
+    ctx.assumptions = ["timing of the failure: required at the write completing the bad entry, allowed earlier once one of its bytes arrived",
+                       "streams containing invalid UTF-8: only 'fails by the completing write, collected entries are a prefix of the preceding well-formed ones'",
+                       "a history ends at its first failing write"]
+    ctx.mc("MC_SummaryStream", "MC_SummaryStream.%s.cfg" % t)
+    ctx.emit_run_validate("MC_SummaryStream", "MC_SummaryStream.sim.cfg", "stream-sim", "Tr_SummaryStream",
+                          "Tr_SummaryStream.cfg", workers=1, simulate="num=%d" % q(ctx, 600, 6000), seed=ctx.seed,
+                          coverage=False)
+    n = q(ctx, 1500, 30000)
+    ctx.record_validate("stream", n, "Tr_SummaryStream", "Tr_SummaryStream.cfg",
+                        args=[n] + ([] if ctx.quick else ["pairs"]))
+
+
+PROPS.update({"C07": C07, "C08": C08, "C09": C09})
